@@ -153,9 +153,32 @@ type privStruct struct {
 	B string
 }
 
+// awkPub / awkPriv: the same shape, one field exported on one side only
+// (structs of different types are compared field by field, by position).
+type awkPub struct {
+	ID int
+	N  any
+}
+type awkPriv struct {
+	ID int
+	n  any
+}
+
+// embedding an exported and an unexported type of the same shape
+type AwkIn struct{ N int }
+type awkIn struct{ N int }
+type awkEmbPub struct {
+	ID int
+	AwkIn
+}
+type awkEmbPriv struct {
+	ID int
+	awkIn
+}
+
 func awkFunc() {}
 
-const nAwk = 38
+const nAwk = 42
 
 // awkward returns the k-th value of the catalogue of awkward Go values.
 func (w *World) awkward(k int) any {
@@ -241,8 +264,36 @@ func (w *World) awkward(k int) any {
 			A any
 			B int
 		}{map[string]int{"k": 1}, 2}
+	case 38:
+		return awkPub{1, 2}
+	case 39:
+		return awkPriv{1, 2}
+	case 40:
+		return awkEmbPub{1, AwkIn{2}}
+	case 41:
+		return awkEmbPriv{1, awkIn{2}}
 	}
 	return nil
+}
+
+// awkSibling: the catalogue value that has the same shape as k but differs
+// where a comparison must look twice (another key, an unexported twin).
+func awkSibling(k int) (int, bool) {
+	switch k {
+	case 8:
+		return 27, true
+	case 27:
+		return 8, true
+	case 38:
+		return 39, true
+	case 39:
+		return 38, true
+	case 40:
+		return 41, true
+	case 41:
+		return 40, true
+	}
+	return k, false
 }
 
 // val materialises a Val as an `any`.
